@@ -22,6 +22,7 @@ subscription creation and deletion).
 -/
 import Mmmbbb.Properties.C01
 import Mmmbbb.Proofs.Ordered
+import Mmmbbb.Model.Fragment
 namespace Mmmbbb
 
 /-- **C05 (the pull honours the link)**: on an ordered subscription every delivery a pull hands out
@@ -2008,33 +2009,6 @@ theorem WF.step_expireSubs {st : St} (h : WF st) (mx : Nat) (v : List Id) : WF (
     · injection hc with hc; subst hc
       exact h.of_subs_kill (fun s => if (v.contains s.id) = true then { s with deletedAt := some st.now } else s)
         rfl rfl rfl rfl (fun s => kill_fields (fun s => v.contains s.id) st.now s)
-
-/-- the fragment: clock advances, topic creation and deletion, subscription creation (no dead-letter
-    policy), deletion and expiry, snapshot creation and deletion, publishes
-    (single and batched, the clock ticking between messages), pulls (waiting or not), deadline changes
-    (positive, zero — the nack of a client library — and negative), nacks, acknowledgements of deliveries that
-    have been handed out (the only ack ids a client can hold), and the two jobs that delete
-    acknowledged / expired delivery rows -/
-def fragOk (st : St) : Op → Prop
-  | .advance d => 0 ≤ d
-  | .createTopic _ _ _ => True
-  | .deleteTopic _ => True
-  | .snapshot _ _ _ _ => True
-  | .deleteSnap _ => True
-  | .createSub p _ => p.maxAttempts = 0
-  | .deleteSub _ => True
-  | .expireSubs _ _ => True
-  | .publish _ tick _ => 0 < tick
-  | .pull _ _ _ _ wait _ => 0 ≤ wait
-  | .ack ids => ∀ d ∈ st.db.dels, ids.contains d.id = true → 0 < d.attempts
-  | .delay _ _ => True
-  | .nack _ _ _ => True
-  | .pruneCompletedDeliveries _ _ _ => True
-  | .pruneExpiredDeliveries _ _ => True
-  | _ => False
-
-instance (st : St) (op : Op) : Decidable (fragOk st op) := by
-  cases op <;> unfold fragOk <;> infer_instance
 
 def fragRun : St → List Op → Prop
   | _, [] => True
